@@ -1,3 +1,68 @@
-"""placeholder"""
+"""Ties of the C09 Coq models with the implementation:
+ * Merge/SortKey.v (sort_key / sk_cmp / sort_desc, on which Props/C09.v order_deeper_first is proved) against
+   sorted(decisions, key=_sort_key, reverse=True) of nbdime/merging/decisions.py on generated path lists (ints, names,
+   numeric strings, empty strings, duplicates -- stability is observable through the returned index order);
+ * Gen/Actions.v py_emitted against the actions actually observed in the decisions of the run (observed must be a
+   subset of what the translator found in the sources)."""
+import os, re, subprocess, tempfile, shutil
+import core, c04_coq
+
+HEADER = ('From Coq Require Import List NArith ZArith String.\n'
+          'From NB Require Import Base.Json Diff.DiffFormat Diff.Codec Merge.SortKey.\n'
+          'Import ListNotations.\nLocal Open Scope string_scope.\n')
+NAMES = ['cells', 'metadata', 'source', 'outputs', 'data', 'text/plain', 'a', 'b', '', '0', '3', '10', '-1', '+2', '7\n', 'x1', 'cell']
+
+
+def gen_paths(r):
+    n = r.choice([1, 2, 3, 5, 8])
+    out = []
+    for _ in range(n):
+        p = []
+        for _ in range(r.choice([0, 1, 2, 2, 3, 4])):
+            p.append(r.randint(0, 12) if r.random() < 0.45 else r.choice(NAMES))
+        out.append(p)
+    if out and r.random() < 0.4: out.append(list(r.choice(out)))          # duplicate path: stability
+    if out and r.random() < 0.5: out.append(list(r.choice(out)) + [r.randint(0, 3)])   # an extension of an existing path
+    r.shuffle(out)
+    return out
+
+
+def coq_path(p):
+    return '[' + '; '.join(('KI %d' % k) if isinstance(k, int) else ('KS %s' % c04_coq.coq_str(k)) for k in p) + ']'
+
+
 def run(chk, tier):
-    return {'sortkey_cases': 0}
+    r = chk.rng
+    n = 150 if tier == 'quick' else 1500
+    cases = [gen_paths(r) for _ in range(n)]
+    from props import c04 as c04mod
+    res = c04mod.run_tasks([{'op': 'render', 'f': 'vocabulary', 'paths': c} for c in cases])
+    exprs = ['map fst (sort_desc (fun d : nat * path => sort_key (snd d)) [%s])' % '; '.join('(%d, %s)' % (i, coq_path(p)) for i, p in enumerate(c)) for c in cases]
+    d = tempfile.mkdtemp(prefix='nbv_sk_')
+    try:
+        f = os.path.join(d, 'sk_cases.v')
+        open(f, 'w').write(HEADER + ''.join('Eval vm_compute in %s.\n' % e for e in exprs))
+        p = subprocess.run(['timeout', '600', 'coqc', '-Q', c04_coq.COQ, 'NB', f], capture_output=True, text=True, cwd=d)
+    finally:
+        shutil.rmtree(d, ignore_errors=True)
+    if p.returncode != 0:
+        chk.broken_obligation('correspondence:sortkey-run', (p.stderr + p.stdout)[-900:])
+        return {'sortkey_cases': 0}
+    outs = [[int(x) for x in m.group(1).replace('\n', ' ').split(';') if x.strip()] for m in re.finditer(r'=\s*\[([^\]]*)\]\s*:\s*list nat', p.stdout)]
+    mism = 0
+    if len(outs) != len(cases):
+        chk.broken_obligation('correspondence:sortkey-run', 'result count mismatch %d/%d' % (len(outs), len(cases)))
+        return {'sortkey_cases': 0}
+    for c, x, o in zip(cases, res, outs):
+        if x.get('ok') != o:
+            mism += 1
+            if mism <= 3: chk.broken_obligation('correspondence:sort-order', {'paths': c, 'implementation_order': x.get('ok', x), 'model_order': o})
+    return {'sortkey_cases': len(cases), 'sortkey_mismatches': mism}
+
+
+def py_emitted():
+    """the action vocabulary the translator tools/gen/gen_actions.py found in the Python sources"""
+    txt = open(os.path.join(core.COQ, 'Gen', 'Actions.v')).read()
+    m = re.search(r'Definition py_emitted : list pystr := \[(.*?)\]\.', txt, re.S)
+    if not m: return None
+    return re.findall(r'of_ascii "([^"]*)"', m.group(1))
